@@ -18,7 +18,7 @@ echo "demo clean exit=$C mutant exit=$M ; tests: $T"
 case "$T" in *"164 passed"*) ;; *) echo "TESTS DO NOT PASS"; exit 1;; esac
 [ "$C" = 0 ] && [ "$M" != 0 ] || { echo "DEMO DOES NOT DISCRIMINATE"; exit 1; }
 D=/verif/seeded/$NAME; mkdir -p $D
-cp /tmp/$NAME.patch $D/patch.diff; cp $DEMO $D/; for n in NOTES_h.md NOTES_g.md NOTES_f.md NOTES_e.md NOTES_d.md NOTES_c.md NOTES_b.md NOTES.md; do [ -f $n ] && cp $n $D/NOTES.md && break; done
+cp /tmp/$NAME.patch $D/patch.diff; cp $DEMO $D/; for n in NOTES_i.md NOTES_h.md NOTES_g.md NOTES_f.md NOTES_e.md NOTES_d.md NOTES_c.md NOTES_b.md NOTES.md; do [ -f $n ] && cp $n $D/NOTES.md && break; done
 cat > $D/meta.json <<EOM
 {"property": "$PROP", "name": "$NAME", "confirmed": "suite: $T; demo exit clean=$C mutant=$M (scratch worktree $WT)",
  "needs": "see NOTES.md", "detected_by": null}
